@@ -1,0 +1,14 @@
+//go:build verif
+// +build verif
+
+// Contracts for package arp, read only by the verifier in /verif (build tag verif).
+// This file contains no code.
+
+package arp
+
+// C07: whatever bytes arrive, handling an ARP frame does not panic (no out-of-range index,
+// no nil dereference), given an initialised endpoint. The link endpoint and the link address
+// cache are reached through interfaces: their effect is unknown (everything may change).
+//@ func (*endpoint).HandlePacket props C07 C12
+//@   requires e != nil && r != nil && e.linkEP != nil && e.linkAddrCache != nil
+//@   modifies everything
